@@ -12,7 +12,7 @@ TRUST = ("Trusted base: the shim of assumed contracts on cosmwasm-std 2.0.2 / cw
 
 CLAIMS = {
     "C01": ("Verus proves, for every input and every pre-state satisfying the invariant, whole-state postconditions of instantiate, create_accounts, the dispatcher and every execute_* handler of cw20-base (extracted from /repo on each run): supply == sum of balances is inductive, and supply moves only at mint/burn by exactly the amount with exactly one balance; lemmas lift this to every finite history.",
-            "7 C01", "function contracts + sum-over-storage invariant + history lemma (Verus)"),
+            "7 C01", "function contracts + sum-over-storage invariant + history lemma (Verus); validate_accounts verified via assumed sort/dedup contracts"),
     "C02": ("Verus proves exact step relations for transfer/send/burn and the *_from handlers (debit only of sender or of an owner under an unexpired sufficient allowance, allowance lowered by exactly the amount, exactly one Receive notification naming the true initiator), exact increase/decrease relations, and an inductive budget lemma drawn + remaining <= granted over every history.",
             "7 C02", "function contracts + per-step lemmas + inductive budget lemma (Verus)"),
     "C13": ("Verus proves mint requires sender == stored minter and supply+amount <= cap, update_minter requires the current minter and copies the cap, every other handler leaves minter/cap alone, instantiate establishes supply <= cap; history lemma: None is absorbing, cap constant while a minter exists, supply <= cap always.",
@@ -35,13 +35,13 @@ CLAIMS = {
             "7 C16", "relational: two exact contracts over one shared spec predicate (Verus)"),
     "C17": ("Verus proves Freeze/UpdateAdmins succeed only for a listed admin while mutable and write exactly the new list/flag, every other handler leaves the admin list alone, allowance/permission changes require a listed admin; lemmas: immutable is absorbing over any history.",
             "7 C17", "function contracts + frames + absorbing-state lemma (Verus)"),
-    "C09": ("Verus proves for cw4-group (create, update_members with both loops, dispatcher) and cw4-stake (update_membership, bond/unbond/claim, dispatcher) that TOTAL == sum of the member table is an inductive invariant, that every member/total write passes the current block height and every at-height query goes through may_load_at_height; the sentence 'value at the start of block h' is then a lemma proved over the ASSUMED SnapshotMap model (first changelog entry >= h, else current) for every history of writes at non-decreasing heights and every h. The raw-key layout of member_key is a bounded stand-in (thorough tier).",
+    "C09": ("Verus proves for cw4-group (create, update_members with both loops, dispatcher) and cw4-stake (update_membership, bond/unbond/claim, dispatcher) that TOTAL == sum of the member table is an inductive invariant, that every member/total write passes the current block height and every at-height query goes through may_load_at_height; the sentence 'value at the start of block h' is then a lemma proved over the ASSUMED SnapshotMap model (first changelog entry >= h, else current) for every history of writes at non-decreasing heights and every h. validate_unique_members is verified too (sort_by / neighbour pairs via assumed std contracts); instantiate stores exactly the given members; the query entry points route Member / TotalWeight with their at_height to those functions. The raw-key layout of member_key is an assumed leaf with a bounded Kani stand-in (thorough tier).",
             "7 C09", "function contracts + sum invariant + loop invariants + snapshot lemma over the assumed dependency model (Verus)"),
     "C10": ("Verus proves on cw4-stake: only the configured native denom / cw20 contract is accepted and the stake grows by exactly the provided amount; unbond checked-subtracts and creates a claim maturing at unbonding_period.after(block); Claim releases exactly the matured claims (assumed Claims contract) and emits exactly one payout of that amount to the caller; calc_weight == stake / tokens_per_weight with no truncation (fix a148515), None iff stake < min_bond, and the member entry always equals it; lemma: books = stakes + claims moves only by bond (+amount) and claim (-payout).",
             "7 C10", "function contracts + books lemma (Verus)"),
     "C14": ("Verus proves update_members asserts the admin before any write and returns diffs that form a chain of single-member writes with the true previous and new weight of exactly the touched addresses (ghost state sequence), that execute_update_members / update_membership emit exactly one MemberChangedHook message per registered hook carrying those diffs (none when nothing changed), and that UpdateAdmin/AddHook/RemoveHook are wired to the admin-checked cw-controllers functions (assumed contracts).",
             "7 C14", "function contracts + ghost diff chain + assumed cw-controllers contracts (Verus)"),
-    "C11": ("Verus proves whole-state step relations for every ics20 entry point that touches a channel balance: transfer (+amount, escrow attached or received via cw20 Receive), packet receive (voucher must carry the counterparty port/channel prefix, checked -amount, exactly one payout sub-message of the amount, reply on error), reply(Err) (+amount back), error ack / timeout (checked -amount, exactly one refund to the sender); lemmas give the per-(channel, denom) delta of each and that a reduction needs a covering balance, so payouts never exceed escrow. Real token holdings enter only through A4. parse_voucher_denom / Amount::from_parts / Amount::denom are assumed leaves (string code).",
+    "C11": ("Verus proves whole-state step relations for every ics20 entry point that touches a channel balance: transfer (+amount, escrow attached or received via cw20 Receive), packet receive (voucher must carry the counterparty port/channel prefix, checked -amount, exactly one payout sub-message of the amount, reply on error), reply(Err) (+amount back), error ack / timeout (checked -amount, exactly one refund to the sender); lemmas give the per-(channel, denom) delta of each and that a reduction needs a covering balance, so payouts never exceed escrow. Real token holdings enter only through A4. parse_voucher_denom is verified against the assumed splitn semantics; Amount::from_parts / Amount::denom are assumed leaves (string code) with bounded Kani stand-ins in the thorough tier; migrate reconciles channel balances exactly for stored versions <= 0.13.0 and leaves them alone otherwise.",
             "7 C11", "function contracts + per-channel accounting lemmas (Verus)"),
     "C12": ("Verus proves ibc_packet_receive never returns Err, that a success ack implies the full receive step and an error ack implies storage unchanged and no sub-message (fix 2af7d5b), that execute_transfer emits exactly one SendPacket carrying amount (<= u64::MAX), denom, true sender, receiver, memo and timeout = block time + requested/default seconds, and the exact balance deltas of ack/timeout/reply.",
             "7 C12", "function contracts on state and emitted messages (Verus)"),
